@@ -1820,4 +1820,169 @@ theorem stateOk_engFold (s : CEng) (h : List CEv) (ok : StateOk s) (hev : ∀ ev
 
 end Concrete
 
+/-! ### after the close call (review B C20S-3: `after_close_any_schedule`)
+
+Once `shutdown()` / `abort()` has put its `Shutdown` on a feed that held only handle events, the feed
+is `handle events ++ Shutdown :: anything` until the engine stops — whatever the forwarders append goes
+BEHIND the `Shutdown` — so the engine processes handle events only, under every schedule. -/
+
+/-- handle consumed, and: engine stopped, or feed = handle-only `++ Shutdown ::` anything -/
+def AfterClose (s : Sys σ χ μ α κ ρ) : Prop :=
+  s.closed.isSome ∧
+    (s.stopped.isSome ∨ ∃ pre post, s.feed = pre ++ Ev.shutdown :: post ∧ ∀ e ∈ pre, e.isHandle = true)
+
+theorem afterClose_step (E : Engine σ μ α κ ρ) (X : Exchange χ ρ α) (s : Sys σ χ μ α κ ρ) (a : Act μ κ)
+    (h : AfterClose s) :
+    AfterClose (step E X s a) ∧
+      ∃ l, (step E X s a).processed = s.processed ++ l ∧ ∀ e ∈ l, e.isHandle = true := by
+  obtain ⟨hc, hj⟩ := h
+  cases a with
+  | push m => exact ⟨⟨hc, hj⟩, [], by simp [step, stepPush], by simp⟩
+  | call c => simp only [step, stepCall, hc, ↓reduceIte]; exact ⟨⟨hc, hj⟩, [], by simp, by simp⟩
+  | close how => simp only [step, stepClose, hc, ↓reduceIte]; exact ⟨⟨hc, hj⟩, [], by simp, by simp⟩
+  | takeAudit => simp only [step, stepTakeAudit, hc, ↓reduceIte]; exact ⟨⟨hc, hj⟩, [], by simp, by simp⟩
+  | fwdMarket =>
+    simp only [step, stepFwdMarket]
+    cases hm : s.market with
+    | nil => exact ⟨⟨hc, hj⟩, [], by simp, by simp⟩
+    | cons m ms =>
+      rcases hj with hst | ⟨pre, post, hf, hp⟩
+      · simp only [hst, ↓reduceIte]; exact ⟨⟨hc, Or.inl hst⟩, [], by simp, by simp⟩
+      · by_cases hst : s.stopped.isSome
+        · simp only [hst, ↓reduceIte]; exact ⟨⟨hc, Or.inl hst⟩, [], by simp, by simp⟩
+        · simp only [hst]
+          refine ⟨⟨hc, Or.inr ⟨pre, post ++ [.market m], ?_, hp⟩⟩, [], by simp, by simp⟩
+          simp [hf]
+  | fwdAccount k =>
+    simp only [step, stepFwdAccount]
+    cases hm : s.pending[k]? with
+    | none => exact ⟨⟨hc, hj⟩, [], by simp, by simp⟩
+    | some a =>
+      rcases hj with hst | ⟨pre, post, hf, hp⟩
+      · simp only [hst, ↓reduceIte]; exact ⟨⟨hc, Or.inl hst⟩, [], by simp, by simp⟩
+      · by_cases hst : s.stopped.isSome
+        · simp only [hst, ↓reduceIte]; exact ⟨⟨hc, Or.inl hst⟩, [], by simp, by simp⟩
+        · simp only [hst]
+          refine ⟨⟨hc, Or.inr ⟨pre, post ++ [.account a], ?_, hp⟩⟩, [], by simp, by simp⟩
+          simp [hf]
+  | engine =>
+    simp only [step, stepEngine]
+    by_cases hst : s.stopped.isSome
+    · simp only [hst, ↓reduceIte]; exact ⟨⟨hc, Or.inl hst⟩, [], by simp, by simp⟩
+    · rcases hj with h' | ⟨pre, post, hf, hp⟩
+      · exact absurd h' hst
+      · simp only [hst]
+        cases pre with
+        | nil =>
+          simp only [List.nil_append] at hf
+          simp only [hf]
+          refine ⟨⟨hc, Or.inl ?_⟩, [Ev.shutdown], by simp, by simp [Ev.isHandle]⟩
+          simp [Ev.isShutdown]
+        | cons x pre' =>
+          simp only [List.cons_append] at hf
+          simp only [hf]
+          refine ⟨⟨hc, ?_⟩, [x], by simp, by intro e he; simp at he; rw [he]; exact hp x (by simp)⟩
+          by_cases hx : x.isShutdown = true
+          · left; simp [hx]
+          · by_cases hfat : E.fatal s.eng.state x = true
+            · left; simp [hx, hfat]
+            · right; exact ⟨pre', post, rfl, fun e he => hp e (by simp [he])⟩
+
+theorem afterClose_run (E : Engine σ μ α κ ρ) (X : Exchange χ ρ α) (acts : List (Act μ κ))
+    (s : Sys σ χ μ α κ ρ) (h : AfterClose s) :
+    AfterClose (run E X s acts) ∧
+      ∃ l, (run E X s acts).processed = s.processed ++ l ∧ ∀ e ∈ l, e.isHandle = true := by
+  induction acts generalizing s with
+  | nil => exact ⟨h, [], by simp [run], by simp⟩
+  | cons a acts ih =>
+    obtain ⟨hj, l1, h1, h2⟩ := afterClose_step E X s a h
+    obtain ⟨hj', l2, g1, g2⟩ := ih _ hj
+    refine ⟨hj', l1 ++ l2, ?_, ?_⟩
+    · show (run E X (step E X s a) acts).processed = _
+      rw [g1, h1, List.append_assoc]
+    · intro e he; rcases List.mem_append.mp he with he | he
+      · exact h2 e he
+      · exact g2 e he
+
+/-! ### the death of the execution task of the concrete execution side (review B C20S-1) -/
+
+section ExecDeath
+open BarterModel.Engine
+
+theorem cRespond_dead (x : CExch) (r : Req) (h : x.dead = true) : cRespond x r = (x, []) := by
+  simp [cRespond, h]
+
+theorem cRespondLive_dead (x : CExch) (r : Req) : (cRespondLive x r).1.dead = x.dead := by
+  cases r with
+  | cnl r => rfl
+  | opn r =>
+    simp only [cRespondLive]
+    split
+    · cases r.side <;> simp only <;> split <;> rfl
+    · rfl
+
+/-- one request: the task is dead afterwards iff it was dead or the request is foreign -/
+theorem cRespond_dead_iff (x : CExch) (r : Req) :
+    (cRespond x r).1.dead = (x.dead || cForeign x r) := by
+  unfold cRespond
+  cases hd : x.dead with
+  | true => simp [hd]
+  | false =>
+    cases hf : cForeign x r with
+    | true => simp
+    | false => simp [cRespondLive_dead, hd]
+
+theorem cRespondLive_k (x : CExch) (r : Req) : (cRespondLive x r).1.k = x.k := by
+  cases r with
+  | cnl r => rfl
+  | opn r =>
+    simp only [cRespondLive]
+    split
+    · cases r.side <;> simp only <;> split <;> rfl
+    · rfl
+
+theorem cRespond_k (x : CExch) (r : Req) : (cRespond x r).1.k = x.k := by
+  unfold cRespond
+  split
+  · rfl
+  · split
+    · rfl
+    · exact cRespondLive_k x r
+
+theorem respondAll_k (rs : List Req) (x : CExch) : (respondAll cExchange x rs).1.k = x.k := by
+  induction rs generalizing x with
+  | nil => rfl
+  | cons r rs ih =>
+    have e : (respondAll cExchange x (r :: rs)).1 = (respondAll cExchange (cRespond x r).1 rs).1 := rfl
+    rw [e, ih]; exact cRespond_k x r
+
+/-- a request list: dead afterwards iff dead before or some request names an instrument the mocked
+exchange does not list -/
+theorem respondAll_dead_iff (rs : List Req) (x : CExch) :
+    (respondAll cExchange x rs).1.dead = (x.dead || rs.any (fun r => decide (x.k ≤ r.key.instrument))) := by
+  induction rs generalizing x with
+  | nil => simp [respondAll]
+  | cons r rs ih =>
+    have e : respondAll cExchange x (r :: rs) =
+        ((respondAll cExchange (cRespond x r).1 rs).1,
+          (cRespond x r).2 ++ (respondAll cExchange (cRespond x r).1 rs).2) := rfl
+    rw [e]
+    simp only [List.any_cons]
+    rw [ih, cRespond_dead_iff, cRespond_k, Bool.or_assoc]
+    rfl
+
+/-- a dead execution side answers nothing, whatever it is asked -/
+theorem respondAll_dead (rs : List Req) (x : CExch) (h : x.dead = true) :
+    respondAll cExchange x rs = (x, []) := by
+  induction rs generalizing x with
+  | nil => rfl
+  | cons r rs ih =>
+    have e : respondAll cExchange x (r :: rs) =
+        ((respondAll cExchange (cRespond x r).1 rs).1,
+          (cRespond x r).2 ++ (respondAll cExchange (cRespond x r).1 rs).2) := rfl
+    rw [e, cRespond_dead x r h]
+    simp [ih x h]
+
+end ExecDeath
+
 end BarterModel.SysHandle
